@@ -4,8 +4,15 @@ which the recorded defect manifests; a failed obligation counts as that finding 
 discharged once this class is excluded."""
 import z3
 
-from .common import CC, FH, handler_for, table_of
-from pyvc.values import Or_
+from spacepackets.cfdp.pdu import EofPdu, FileDataPdu
+from spacepackets.cfdp import TransmissionMode
+
+from .common import CC, FH, ACK, handler_for, table_of, eq, ne
+from pyvc.values import And_, Or_, Not_
+
+
+def _pkt(o):
+    return getattr(o, "packet", None)
 
 
 def _some_abandon(o):
@@ -16,4 +23,38 @@ def _some_abandon(o):
         CC.POSITIVE_ACK_LIMIT_REACHED)])
 
 
-FINDING_CLASSES = {"F5c": _some_abandon}
+def _acked_transaction(o):
+    """acknowledged mode (only there NAK PDUs are queued by the handler): the running or the just-opened transaction"""
+    p = _pkt(o)
+    fs = [eq(o.self._params.pdu_conf.trans_mode, ACK)]
+    if p is not None:
+        fs.append(eq(p.pdu_conf.trans_mode, ACK))
+    return Or_(*fs)
+
+
+def _file_data_packet(o):
+    p = _pkt(o)
+    return p is not None and p.cls is FileDataPdu
+
+
+def _eof_packet(o):
+    p = _pkt(o)
+    return p is not None and p.cls is EofPdu
+
+
+def _cancel_eof(o):
+    e = getattr(o, "eof_pdu", None) or _pkt(o)
+    if e is None or e.cls is not EofPdu:
+        return False
+    return ne(e.condition_code, CC.NO_ERROR)
+
+
+FINDING_CLASSES = {
+    "F5a": _acked_transaction,
+    "F5b": lambda o: And_(_file_data_packet(o), _acked_transaction(o)),
+    "F5c": _some_abandon,
+    "F13": _file_data_packet,
+    "F13b": _eof_packet,
+    "F16": _cancel_eof,
+    "F21": _cancel_eof,
+}
